@@ -7,6 +7,7 @@ import (
 	"go/ast"
 	"go/constant"
 	"go/token"
+	"os"
 	"sort"
 	"strings"
 )
@@ -27,6 +28,16 @@ type nLet struct {
 	body gnode
 }
 type nRet struct{ vals []ex }
+
+// a joined if: `if c { A }; rest` whose branches only assign variables is the value (the tuple of those variables) of an
+// if-expression, followed by rest ONCE (instead of rest once per branch)
+type nTuple struct{ names []string }
+type nJoin struct {
+	inner   gnode
+	partial bool
+	names   []string
+	body    gnode
+}
 type nPanic struct{ why string }
 type nFind struct {
 	binder   string // the lambda's variable
@@ -66,6 +77,8 @@ func nodePartial(n gnode) bool {
 		return len(x.list.binds) > 0 || nodePartial(x.found) || nodePartial(x.notfound)
 	case *nLoop, *nLoopNext, *nLoopExit:
 		return true // a loop can run out of fuel
+	case *nJoin:
+		return x.partial || nodePartial(x.body)
 	}
 	return false
 }
@@ -84,6 +97,8 @@ const (
 	mTotal = iota
 	mPartial
 	mLoop
+	mJoinT // the value of a joined if (the tuple of the variables its branches assign), total
+	mJoinP // ... partial: under Some
 )
 
 func retText(mode int, s string) string {
@@ -92,6 +107,8 @@ func retText(mode int, s string) string {
 		return "Some " + paren(s)
 	case mLoop:
 		return "Some (go_ret " + paren(s) + ")"
+	case mJoinT, mJoinP:
+		return "UNRENDERABLE (* a return inside a joined if *)"
 	}
 	return s
 }
@@ -133,9 +150,27 @@ func render(n gnode, mode int, ind string) string {
 		s := fmt.Sprintf("match find %s %s with\n%s| Some %s => %s\n%s| None => %s\n%send", lam, x.list.code, ind, x.binder, found, ind, render(x.notfound, mode, ind+"    "), ind)
 		return withBinds(x.list.binds, s, ind)
 	case *nLoop:
+		ret := retText(mode, "r")
+		if mode == mJoinT || mode == mJoinP {
+			ret = "None (* unreachable: no return inside a joined if *)"
+		}
 		s := fmt.Sprintf("match %s with\n%s| None => None\n%s| Some (go_ret r) => %s\n%s| Some (go_exit %s) => %s\n%send",
-			x.lp.callText(x.init, x.free), ind, ind, retText(mode, "r"), ind, x.pat, render(x.after, mode, ind+"    "), ind)
+			x.lp.callText(x.init, x.free), ind, ind, ret, ind, x.pat, render(x.after, mode, ind+"    "), ind)
 		return withBinds(x.binds, s, ind)
+	case *nTuple:
+		if mode == mJoinP {
+			return "Some " + paren(tupleOf(x.names))
+		}
+		return tupleOf(x.names)
+	case *nJoin:
+		pat := x.names[0]
+		if len(x.names) > 1 {
+			pat = "'" + tupleOf(x.names)
+		}
+		if x.partial {
+			return fmt.Sprintf("go_bind (%s) (fun %s =>\n%s%s)", render(x.inner, mJoinP, ind+"  "), pat, ind, render(x.body, mode, ind))
+		}
+		return fmt.Sprintf("let %s := (%s) in\n%s%s", pat, render(x.inner, mJoinT, ind+"  "), ind, render(x.body, mode, ind))
 	case *nLoopNext:
 		return x.lp.nextText(x.state)
 	case *nLoopExit:
@@ -428,6 +463,9 @@ func (tr *gtTr) stmt(s ast.Stmt, env *venv, next cont) gnode {
 						return nx(e1)
 					}
 					return tr.stmt(x.Else, e1, nx)
+				}
+				if n, ok := tr.joinIf(x, cond, e1, nx); ok {
+					return n
 				}
 				a := tr.scoped(e1.clone(), nx, func(e2 *venv, nx2 cont) gnode { return tr.block(x.Body.List, e2, nx2) })
 				var b gnode
@@ -1146,6 +1184,7 @@ type gtState struct {
 	pending      []string          // texts to emit, in dependency order
 	family       string
 	loopTexts    map[string]string // emitted loop functions, by name
+	joins        bool              // translate ifs whose branches cannot leave as expressions (joinIf)
 }
 
 var gtStates = map[*gen]*gtState{}
@@ -1153,7 +1192,7 @@ var gtStates = map[*gen]*gtState{}
 func (g *gen) gtState() *gtState {
 	st := gtStates[g]
 	if st == nil {
-		st = &gtState{fns: map[string]*gtFn{}, cfgs: map[string]*gtCfg{}, tables: map[string]*gtype{}, placeholders: map[string]bool{}, loopTexts: map[string]string{}}
+		st = &gtState{fns: map[string]*gtFn{}, cfgs: map[string]*gtCfg{}, tables: map[string]*gtype{}, placeholders: map[string]bool{}, loopTexts: map[string]string{}, joins: os.Getenv("GOTRANS_NOJOINS") == ""}
 		gtStates[g] = st
 	}
 	return st
@@ -1997,4 +2036,74 @@ func isFirstMatchFor(x *ast.ForStmt) bool {
 		return true
 	})
 	return okUse
+}
+
+// joinIf: an if whose branches cannot leave (no return, break, continue, goto, panic) and assign at least one variable
+// that is visible outside is translated as an expression; what follows it is translated once.
+func (tr *gtTr) joinIf(x *ast.IfStmt, cond ex, env *venv, next cont) (gnode, bool) {
+	if !tr.st.joins {
+		return nil, false
+	}
+	leaves := false
+	var check func(n ast.Node)
+	check = func(n ast.Node) {
+		ast.Inspect(n, func(n ast.Node) bool {
+			switch y := n.(type) {
+			case *ast.ReturnStmt, *ast.BranchStmt, *ast.LabeledStmt, *ast.FuncLit, *ast.GoStmt, *ast.DeferStmt:
+				leaves = true
+			case *ast.CallExpr:
+				if _, ok := tr.diverges(y, env); ok {
+					leaves = true
+				}
+				if isIdent(y.Fun, "panic") {
+					leaves = true
+				}
+			}
+			return !leaves
+		})
+	}
+	check(x.Body)
+	if x.Else != nil {
+		check(x.Else)
+	}
+	if leaves {
+		return nil, false
+	}
+	nodes := []ast.Node{x.Body}
+	if x.Else != nil {
+		nodes = append(nodes, x.Else)
+	}
+	keys, _, _ := tr.assignedIn(nodes, env)
+	state := sortKeys(keys, env)
+	if len(state) == 0 {
+		return nil, false
+	}
+	for _, k := range state {
+		if _, t := tr.keyName(env, k); !t.supported() {
+			return nil, false
+		}
+	}
+	tupleK := func(e *venv) gnode {
+		var names []string
+		for _, k := range state {
+			n, _ := tr.useKey(e, k)
+			names = append(names, n)
+		}
+		return &nTuple{names: names}
+	}
+	a := tr.scoped(env.clone(), tupleK, func(e2 *venv, nx2 cont) gnode { return tr.block(x.Body.List, e2, nx2) })
+	var b gnode
+	if x.Else == nil {
+		b = tupleK(env.clone())
+	} else {
+		b = tr.stmt(x.Else, env.clone(), tupleK)
+	}
+	inner := &nIf{cond: cond, a: a, b: b}
+	var names []string
+	for _, k := range state {
+		n := tr.newName(k.base())
+		tr.setKeyName(env, k, n)
+		names = append(names, n)
+	}
+	return &nJoin{inner: inner, partial: nodePartial(inner), names: names, body: next(env)}, true
 }
